@@ -18,7 +18,8 @@ SYMPREC = 1e-5
 RULE = ("cases = lattice family (random sheared by unimodular matrices, needles/plates to 1:50, cubic/fcc/bcc/hex with atoms on 0,1/2,1/3,1/4 fractions for 2..8-fold ties, "
         "zoo supercells through Primitive) x dense|sparse storage; every (supercell atom, primitive atom) pair is an evaluation; "
         "tie families also with positions perturbed by 0.03|0.2 symprec (near-ties) and symprec 1e-7|1e-5|1e-3; oracle bands: images with length <= min+0.5*symprec must be stored, >= min+1.5*symprec must not (in between: don't care); "
-        "non-trivial = pair with a non-zero separation; distinct = (lattice case, storage, pair index)")
+        "non-trivial = pair with a non-zero separation; distinct = (lattice case, storage, pair index); "
+        "additions of rounds 6-8: family large (1024-2051 atoms, 1-16 threads); module-level function for the problem and for a sibling lattice (equal lengths and positions, other angles) in the same process")
 ASSUMPTIONS = [
     "box |n_i| <= r0*|b*_i| + 0.5 in the Niggli-reduced basis (harness' own spglib call) contains every image no longer than the known image r0",
     "boxes with more than 3e6 points are skipped and counted",
